@@ -168,7 +168,74 @@ class Units:
         return None
 
 
+def run_index_bounds(ctx):
+    """R-BOUNDS: every scalar index `v[i]` into a Vec / slice in the LSP crate is executed only where `i < v.len()` is known:
+    from an enclosing `if` / `while` condition or the left operands of the `&&` chain it sits in, or `i` was produced by
+    `v.iter().position(..)` on the same vector. (`v.get(i)` never panics and is not a site.)"""
+    from rules.C11 import _conjuncts, _opkey, _rel_facts
+    F = ctx.facts()
+    n = 0
+    counts = {}
+    for p in F.hir_paths():
+        if not p.startswith("varpulis_lsp::"):
+            continue
+        h = F.hir(p)
+
+        def visit(e, facts, posbound):
+            nonlocal n
+            if e is None:
+                return
+            k = e.get("k")
+            if k == "bin" and e["op"] == "And":
+                visit(e["l"], facts, posbound)
+                visit(e["r"], facts + _conjuncts(e["l"]), posbound)
+                return
+            if k == "if":
+                c = H.strip(e["cond"])
+                pb = dict(posbound)
+                if c is not None and c.get("k") == "letcond":
+                    # if let Some(i) = v.iter().position(..)
+                    init = H.strip(c["init"])
+                    if init.get("k") == "mcall" and init["method"] in ("position", "rposition"):
+                        root = init["recv"]
+                        while H.strip(root).get("k") == "mcall":
+                            root = H.strip(root)["recv"]
+                        for key in H.pat_bind_keys(c["pat"]):
+                            pb[key] = _opkey(root)
+                visit(e["cond"], facts, posbound)
+                visit(e["then"], facts + _conjuncts(e["cond"]), pb)
+                visit(e["else"], facts, posbound)
+                return
+            if k == "index" and not e["ity"].startswith("core::ops::range") and ("alloc::vec::Vec<" in e["ety"] or e["ety"].lstrip("&").startswith("[")):
+                n += 1
+                cont = _opkey(e["e"])
+                idx = _opkey(e["i"])
+                base = "%s:%s" % (p.rsplit("::", 1)[1], H.show(e)[:40])
+                counts[base] = counts.get(base, 0) + 1
+                key = base if counts[base] == 1 else "%s#%d" % (base, counts[base])
+                rel = _rel_facts(facts)
+                lt = set()
+                for c in facts:
+                    c = H.strip(c)
+                    if c.get("k") == "bin" and c["op"] in ("Lt", "Gt"):
+                        a, b = _opkey(c["l"]), _opkey(c["r"])
+                        if c["op"] == "Gt":
+                            a, b = b, a
+                        lt.add((a, b))
+                if (idx, "len(%s)" % cont) in lt or posbound.get(idx) == cont or H.strip(e["i"]).get("k") == "lit":
+                    ctx.ok("index-bounds", key, site=e["sp"])
+                else:
+                    ctx.violation("index-bounds", key, "`%s` indexes a vector without a dominating `%s < %s.len()` test (known here: %s): it panics for a position past the end of the line, e.g. a character column compared against the line's byte length" % (
+                        H.show(e)[:50], H.show(e["i"])[:30], H.show(e["e"])[:30], sorted("%s < %s" % (a.split("#")[0], b.split("#")[0]) for a, b in lt)[:4]), site=e["sp"])
+            for c in H.children(e):
+                visit(c, facts, posbound)
+
+        visit(h["body"], [], {})
+    ctx.floor("index-bounds", "scalar vector index sites in the LSP crate", n, 10)
+
+
 def run(ctx):
+    ctx.guard("index-bounds", lambda: run_index_bounds(ctx))
     F = ctx.facts()
     U = Units(F, "varpulis_lsp::")
     ctx.floor("units", "function bodies of the LSP crate", len(U.fns), 40)
